@@ -992,7 +992,7 @@ def _insert(data, pos, extra):
 
 
 def _deep(opener, d, closed, closer):
-    return (opener * d + (closer * d if closed else '')).encode('ascii')
+    return (opener * d + ('1' + closer * d if closed else '')).encode('ascii')
 
 
 def json_bodies():
@@ -1018,7 +1018,7 @@ def json_bodies():
                                 b'-', b'{"a":}', b'[', b']', b'\x00']).map(lambda b: ('literal', b, None))
     deep = st.builds(lambda o, d, closed: ('deep:%d' % d, _deep(o[0], d, closed, o[1]), None),
                      st.sampled_from([('[', ']'), ('{"a":', '}'), ('[{"a":', '}]')]),
-                     st.sampled_from([10, 10, 400, 1000, 3000, 100000]), st.booleans())
+                     st.sampled_from([10, 10, 400, 1000, 3000, 100000]), st.sampled_from([True, False, True]))
     return weighted((4, valid), (1, empty), (1, white), (2, trunc), (1, corrupt), (1, stray), (2, wrong), (1, latin),
                     (1, rand), (1, literals), (2, deep))
 
